@@ -33,12 +33,12 @@ def main():
     env.pop("ANDROGUARD_VERIF", None)
     conf = {}
     sh("git checkout -- androguard", cwd=wt)
-    rc0, o0 = sh(f"/venv/bin/python {out}/demo.py", cwd=wt, env=env)
+    rc0, o0 = sh(f"/venv/bin/python {sd}/demo.py", cwd=wt, env=env)
     conf["demo_on_clean_rc"] = rc0
     rc, o = sh(f"git apply {out}/patch.diff", cwd=wt)
     if rc != 0:
         print("patch does not apply:", o); return 2
-    rc1, o1 = sh(f"/venv/bin/python {out}/demo.py", cwd=wt, env=env)
+    rc1, o1 = sh(f"/venv/bin/python {sd}/demo.py", cwd=wt, env=env)
     conf["demo_with_patch_rc"] = rc1
     conf["demo_with_patch_tail"] = o1[-300:]
     print("demo clean rc", rc0, "patched rc", rc1)
